@@ -114,12 +114,21 @@ Definition single (r : rr) : rrset :=
 Definition same_rrset (r : rr) (s : rrset) : bool :=
   (r_name r =? s_name s) && (r_class r =? s_class s) && (r_type r =? s_type s) && (r_covers r =? s_covers s).
 
+(* dns.rdatatype.is_singleton: SOA, NXT, DNAME, NSEC, CNAME *)
+Definition is_singleton (t : Z) : bool :=
+  (t =? 6) || (t =? 30) || (t =? 39) || (t =? 47) || (t =? 5).
+
+(* Rdataset.add(rd): a singleton type keeps only the newest rdata ("if is_singleton and len(self) > 0:
+   self.clear()") *)
+Definition rds_add (ty : Z) (d : Z) (ds : list Z) : list Z :=
+  if is_singleton ty then [d] else ins d ds.
+
 (* rrset.add(rd, ttl): update_ttl (minimum; the set is never empty here), then add the item *)
 Definition rrset_add (s : rrset) (r : rr) : rrset :=
   let t := clamp_ttl (r_ttl r) in
   mkRS (s_name s) (s_class s) (s_type s) (s_covers s)
        (match s_data s with [] => t | _ => if t <? s_ttl s then t else s_ttl s end)
-       (ins (r_data r) (s_data s)).
+       (rds_add (s_type s) (r_data r) (s_data s)).
 
 (* find_rrset(create=True, force_unique=False) followed by rrset.add *)
 Fixpoint add_to (r : rr) (acc : list rrset) : list rrset :=
@@ -154,8 +163,10 @@ Definition t_add (replace : bool) (z : zone) (s : rrset) : res zone :=
           if replace then (s_ttl s, s_data s)
           else match look z k with
                | Some (ettl, erds) =>
-                   (* existing.union(rdataset): union_update -> update_ttl (minimum) *)
-                   ((if s_ttl s <? ettl then s_ttl s else ettl), union erds (s_data s))
+                   (* existing.union(rdataset): union_update -> update_ttl (minimum), then
+                      Rdataset.add for every item (singleton types keep only the newest) *)
+                   ((if s_ttl s <? ettl then s_ttl s else ettl),
+                    fold_left (fun acc x => rds_add (s_type s) x acc) (s_data s) erds)
                | None => (s_ttl s, s_data s)
                end in
         Ok (zput k e z)
